@@ -194,7 +194,8 @@ func embAddr(owner *types.Named, idx int, obj *Term) *Term {
 	ft := s.Field(idx).Type()
 	for j := 0; j < idx; j++ {
 		if types.Identical(s.Field(j).Type(), ft) {
-			return App("emb|"+typeStr(owner)+"|"+itoa(idx), IntS, obj)
+			// a concrete injective encoding into the negative numbers (no real object lives there)
+			return Sub(IntLit(0), Add(Mul(IntLit(64), obj), IntLit(int64(idx))))
 		}
 	}
 	return obj
